@@ -73,18 +73,24 @@ Proofs/GitProof.vos Proofs/GitProof.vok Proofs/GitProof.required_vos: Proofs/Git
 Model/Checkpoint.vo Model/Checkpoint.glob Model/Checkpoint.v.beautified Model/Checkpoint.required_vo: Model/Checkpoint.v 
 Model/Checkpoint.vio: Model/Checkpoint.v 
 Model/Checkpoint.vos Model/Checkpoint.vok Model/Checkpoint.required_vos: Model/Checkpoint.v 
+Model/CheckpointSave.vo Model/CheckpointSave.glob Model/CheckpointSave.v.beautified Model/CheckpointSave.required_vo: Model/CheckpointSave.v 
+Model/CheckpointSave.vio: Model/CheckpointSave.v 
+Model/CheckpointSave.vos Model/CheckpointSave.vok Model/CheckpointSave.required_vos: Model/CheckpointSave.v 
 Proofs/CheckpointProof.vo Proofs/CheckpointProof.glob Proofs/CheckpointProof.v.beautified Proofs/CheckpointProof.required_vo: Proofs/CheckpointProof.v Model/Checkpoint.vo
 Proofs/CheckpointProof.vio: Proofs/CheckpointProof.v Model/Checkpoint.vio
 Proofs/CheckpointProof.vos Proofs/CheckpointProof.vok Proofs/CheckpointProof.required_vos: Proofs/CheckpointProof.v Model/Checkpoint.vos
+Proofs/CheckpointSaveProof.vo Proofs/CheckpointSaveProof.glob Proofs/CheckpointSaveProof.v.beautified Proofs/CheckpointSaveProof.required_vo: Proofs/CheckpointSaveProof.v Model/CheckpointSave.vo
+Proofs/CheckpointSaveProof.vio: Proofs/CheckpointSaveProof.v Model/CheckpointSave.vio
+Proofs/CheckpointSaveProof.vos Proofs/CheckpointSaveProof.vok Proofs/CheckpointSaveProof.required_vos: Proofs/CheckpointSaveProof.v Model/CheckpointSave.vos
 Properties/C02.vo Properties/C02.glob Properties/C02.v.beautified Properties/C02.required_vo: Properties/C02.v Model/Git.vo Proofs/GitProof.vo
 Properties/C02.vio: Properties/C02.v Model/Git.vio Proofs/GitProof.vio
 Properties/C02.vos Properties/C02.vok Properties/C02.required_vos: Properties/C02.v Model/Git.vos Proofs/GitProof.vos
 Properties/C07.vo Properties/C07.glob Properties/C07.v.beautified Properties/C07.required_vo: Properties/C07.v Model/Git.vo Proofs/GitProof.vo
 Properties/C07.vio: Properties/C07.v Model/Git.vio Proofs/GitProof.vio
 Properties/C07.vos Properties/C07.vok Properties/C07.required_vos: Properties/C07.v Model/Git.vos Proofs/GitProof.vos
-Properties/C19.vo Properties/C19.glob Properties/C19.v.beautified Properties/C19.required_vo: Properties/C19.v Model/Checkpoint.vo Model/Git.vo Proofs/CheckpointProof.vo
-Properties/C19.vio: Properties/C19.v Model/Checkpoint.vio Model/Git.vio Proofs/CheckpointProof.vio
-Properties/C19.vos Properties/C19.vok Properties/C19.required_vos: Properties/C19.v Model/Checkpoint.vos Model/Git.vos Proofs/CheckpointProof.vos
+Properties/C19.vo Properties/C19.glob Properties/C19.v.beautified Properties/C19.required_vo: Properties/C19.v Model/Checkpoint.vo Model/Git.vo Proofs/CheckpointProof.vo Model/CheckpointSave.vo Proofs/CheckpointSaveProof.vo
+Properties/C19.vio: Properties/C19.v Model/Checkpoint.vio Model/Git.vio Proofs/CheckpointProof.vio Model/CheckpointSave.vio Proofs/CheckpointSaveProof.vio
+Properties/C19.vos Properties/C19.vok Properties/C19.required_vos: Properties/C19.v Model/Checkpoint.vos Model/Git.vos Proofs/CheckpointProof.vos Model/CheckpointSave.vos Proofs/CheckpointSaveProof.vos
 AsFound/C02.vo AsFound/C02.glob AsFound/C02.v.beautified AsFound/C02.required_vo: AsFound/C02.v Model/Git.vo Proofs/GitProof.vo Properties/C02.vo
 AsFound/C02.vio: AsFound/C02.v Model/Git.vio Proofs/GitProof.vio Properties/C02.vio
 AsFound/C02.vos AsFound/C02.vok AsFound/C02.required_vos: AsFound/C02.v Model/Git.vos Proofs/GitProof.vos Properties/C02.vos
@@ -214,3 +220,6 @@ AsFound/C07.vos AsFound/C07.vok AsFound/C07.required_vos: AsFound/C07.v Model/Gi
 AsFound/C06.vo AsFound/C06.glob AsFound/C06.v.beautified AsFound/C06.required_vo: AsFound/C06.v Model/Compressor.vo Properties/C06.vo
 AsFound/C06.vio: AsFound/C06.v Model/Compressor.vio Properties/C06.vio
 AsFound/C06.vos AsFound/C06.vok AsFound/C06.required_vos: AsFound/C06.v Model/Compressor.vos Properties/C06.vos
+AsFound/C19.vo AsFound/C19.glob AsFound/C19.v.beautified AsFound/C19.required_vo: AsFound/C19.v Model/CheckpointSave.vo Properties/C19.vo
+AsFound/C19.vio: AsFound/C19.v Model/CheckpointSave.vio Properties/C19.vio
+AsFound/C19.vos AsFound/C19.vok AsFound/C19.required_vos: AsFound/C19.v Model/CheckpointSave.vos Properties/C19.vos
